@@ -87,7 +87,7 @@ func (t *Tracer) Emit(ev any, newBehaviour bool, nontrivial bool) {
 			t.nontriv++
 			// keep a few spread-out samples
 			if len(t.samples) < 3 || (t.nontriv%50021 == 0 && len(t.samples) < 8) {
-				if len(b) < 6000 {
+				if len(b) < 30000 {
 					t.samples = append(t.samples, json.RawMessage(append([]byte{}, b...)))
 				}
 			}
